@@ -80,6 +80,14 @@ def _named(x):
     raise TypeError(x)
 
 
+class _Sink:
+    def __init__(self, pc):
+        self.pc = pc
+
+    def assume(self, *fs):
+        self.pc.extend(fs)
+
+
 class SeqV:
     """Value snapshot of a list: n, per-leaf arrays, element type."""
     kind = 'seq'
@@ -125,6 +133,7 @@ class Specs:
         self._cache = {}
         self.sort_key_fn = None
         self.library = {}
+        self.ghosts = {}       # (fn qual, statement source text) -> [(ghost name, expression text)]
 
     # ------------------------------------------------------------ registration API
     def shape(self, cls, _final=False, _opaque=False, **fields):
@@ -173,6 +182,24 @@ class Specs:
 
     def getter(self, qual, text):
         self.getters[qual] = text
+
+    def ghost_after(self, fn, stmt_text, **updates):
+        """Ghost code: after the statement of `fn` whose source text is `stmt_text` ran, assign the
+        ghost locals (specification-only variables; they never influence the executed code)."""
+        import ast as _ast
+        if stmt_text == '<entry>':
+            self.ghosts.setdefault((fn, '<entry>'), []).extend(updates.items())
+            return
+        key = (fn, _ast.unparse(_ast.parse(stmt_text.strip()).body[0]))
+        self.ghosts.setdefault(key, []).extend(updates.items())
+
+    def ghosts_for(self, qual, node):
+        if not self.ghosts:
+            return None
+        try:
+            return self.ghosts.get((qual, ast.unparse(node)))
+        except Exception:
+            return None
 
     def literal(self, fn, src, ty):
         self.literal_types[(fn, src)] = ty
@@ -289,6 +316,12 @@ class Specs:
 
     def eval_value(self, ex, text, st, fr, extra=None):
         ps = self._pure_state(st, extra)
+        return ex.ev1(self.parse(text), ps, fr)
+
+    def eval_ghost(self, ex, text, st, fr):
+        """Evaluate a ghost assignment; array definitions it introduces go to the real path condition."""
+        ps = self._pure_state(st, None)
+        ps.ghost_pc = st.pc
         return ex.ev1(self.parse(text), ps, fr)
 
     def eval_bool(self, ex, text, st, fr, extra=None):
@@ -416,6 +449,26 @@ class Specs:
             if sort == I:
                 return vint(t)
             return V(execu.T_DYN, t)
+        if name in ('comp_pos', 'comp_inv', 'sorted_perm', 'sorted_inv'):
+            # ghost witness arrays left by a filtering comprehension / sorted(): position maps
+            key = f'$w.{name}.{a[0].value}'
+            arr = st.heap.maps.get(key)
+            if arr is None:
+                # no such comprehension ran on this path: an arbitrary map (the clause must hold for any)
+                arr = z3.Const(f'nowitness:{key}', z3.ArraySort(I, I))
+            return vint(arr[ex.ev1(a[1], st, fr).t])
+        if name == 'imap':
+            # imap(lambda i: e) : an Int -> Int map given pointwise (ghost values only)
+            lam = a[0]
+            if not isinstance(lam, ast.Lambda) or len(lam.args.args) != 1:
+                raise Unsupported('imap() needs a one-argument lambda')
+            i = z3.Int(f'im_i!{next(sym._counter)}')
+            ps = st.fork()
+            ps.pure = True
+            ps.bound = st.bound + [{lam.args.args[0].arg: vint(i)}]
+            body = ex.ev1(lam.body, ps, fr)
+            sink = _Sink(st.ghost_pc) if st.ghost_pc is not None else None
+            return V(Ty('imap'), sym.defarray(sink, i, body.t, 'imap'))
         if name == 'fn_id':
             return vint(ex.fnid(a[0].value))
         if name in self.specfns:
@@ -515,9 +568,10 @@ def install_pure_ops(Executor):
     orig_contains = Executor.contains
 
     def get_item(self, c, k, st):
+        if isinstance(c, V) and c.kind == 'imap':
+            return [(vint(c.t[k.t]), st)]
         if isinstance(c, SeqV):
-            idx = k.t
-            return [(c.at(z3.If(idx < 0, idx + c.n, idx)), st)]
+            return [(c.at(execu.norm_index(k.t, c.n, True)), st)]
         if isinstance(c, MapV):
             return [(c.at(coerce(k, c.kty).t), st)]
         return orig_get(self, c, k, st)
